@@ -274,3 +274,35 @@ class TokenTarget(object):
     def stream(self, token):
         self._count(token)
         return iter([token + "-0", token + "-1"])
+
+
+@server.expose
+class LogTarget(object):
+    """logs every invocation (handshake / hostile-input checks)"""
+    def __init__(self):
+        self.log = []
+
+    def hit(self, tag="x"):
+        self.log.append(("hit", tag))
+        return "hit-" + str(tag)
+
+    @server.oneway
+    def hit_oneway(self, tag="x"):
+        self.log.append(("hit_oneway", tag))
+
+    def token(self, t):
+        self.log.append(("token", t))
+        return t
+
+    def boom(self, kind):
+        self.log.append(("boom", kind))
+        if kind == "unserialisable":
+            class Weird(Exception):
+                def __init__(self):
+                    Exception.__init__(self, "weird")
+                    import threading
+                    self.lock = threading.Lock()
+            raise Weird()
+        if kind == "custom":
+            raise CustomError("custom failure", 7)
+        raise ValueError("plain failure")
